@@ -214,7 +214,7 @@ func evalC19(c *Ctx, cs C19Case) string {
 				// the epilogue position is not known for damaged files: only freshness is checked
 				epi = ""
 			}
-			if !bytes.HasSuffix(now, []byte(epi)) {
+			if !bytes.HasSuffix(bytes.TrimRight(now, " \t\r\n"), bytes.TrimRight([]byte(epi), " \t\r\n")) {
 				return fmt.Sprintf("variant %s: generation succeeded but the output file does not end with the epilogue (ends with %q)\n%s", v.Name, clip(string(now[max(0, len(now)-120):]), 200), cs.Text)
 			}
 			if bytes.Contains(now, cs.Old) && len(cs.Old) > 8 {
